@@ -41,6 +41,15 @@ class FixedPortIDCollisionError(_error.InvalidDefinitionError):
     """
 
 
+class MultipleDefinitionsUnderSameVersionError(_error.InvalidDefinitionError):
+    """
+    Raised when there are several definitions of the same data type under the same version number, for example::
+
+        Type.1.0.dsdl
+        58000.Type.1.0.dsdl
+    """
+
+
 class VersionsOfDifferentKindError(_error.InvalidDefinitionError):
     """
     Definitions that share the same name but are of different kinds.
@@ -476,7 +485,12 @@ def _ensure_minor_version_compatibility_pairwise(
     assert a is not b
     assert a.full_name == b.full_name
     assert a.version.major == b.version.major
-    assert a.version.minor != b.version.minor  # This is the whole point of this function.
+
+    # Version collision
+    if a.version.minor == b.version.minor:
+        raise MultipleDefinitionsUnderSameVersionError(
+            "This definition shares its version number with %s" % b.source_file_path, path=a.source_file_path
+        )
 
     # Must be of the same kind: both messages or both services
     if isinstance(a, _serializable.ServiceType) != isinstance(b, _serializable.ServiceType):
